@@ -54,6 +54,7 @@ MarshalTags(D, v, res) ==
        \cup (IF wf /\ res.ok /\ ~EncEqAny(D, v, res.out) THEN {"C03:bytes"} ELSE {})
        \cup (IF OverAny(v) /\ res.ok THEN {"C08:over_limit_accepted"} ELSE {})
        \cup (IF res.ok THEN FramingTags(D, v, res.out) ELSE {})
+       \cup (IF v.k = "CP" /\ res.ok /\ ~Valid(v.pkts) THEN {"C11:invalid_compound_marshalled"} ELSE {})
 
 \* MarshalSize: C05.  out = the integer returned; m = the last Marshal result
 \* for the same value ([ok |-> FALSE] if none)
@@ -74,6 +75,14 @@ HeaderTags(D, v, out) ==
 \* DestinationSSRC: C10
 DestAny(v) == IF IsList(v) THEN (IF Len(v.pkts) = 0 THEN << >> ELSE Dest(v.pkts[1])) ELSE Dest(v)
 DestTags(v, out) == IF out # DestAny(v) THEN {"C10:dest"} ELSE {}
+
+\* CompoundPacket.Validate and CNAME (C11)
+ValidateTags(v, res) ==
+  IF res.panic THEN {"C11:validate_panic"}
+  ELSE IF res.ok # Valid(v.pkts) THEN {"C11:validate"} ELSE {}
+CnameTags(v, res) ==
+  IF res.panic THEN {"C11:cname_panic"}
+  ELSE IF Valid(v.pkts) /\ (~res.ok \/ res.out # CNAMEOf(v.pkts)) THEN {"C11:cname"} ELSE {}
 
 ---------------------------------------------------------------------------
 \* Decoding through kind k's own decoder: res = [ok, out, panic, alloc, slow]
@@ -104,7 +113,7 @@ DecodeTags(D, k, b, res) ==
   ELSE LET r == DecEntry(D, k, b) IN
        IF r.st = "ok" THEN
             (IF ~res.ok THEN {IF k = "CP" THEN "C11:valid_compound_rejected" ELSE "C04:valid_rejected"}
-             ELSE IF res.out # r.v THEN {IF k = "CP" THEN "C11:compound_value" ELSE "C04:value"}
+             ELSE IF res.out # r.v THEN {"C04:value"}
              ELSE {})
        ELSE IF r.st = "rej" THEN (IF res.ok THEN {IF k = "CP" THEN "C11:invalid_compound_accepted" ELSE RejTag(D, k, b)} ELSE {})
        ELSE {}
